@@ -12,6 +12,7 @@
 
 #include <micm/jit/process/jit_process_set.hpp>
 
+#include <algorithm>
 #include <iostream>
 
 namespace
@@ -152,9 +153,37 @@ namespace
     {
       guard = vh::errString(e);
     }
+    // the run-time guard (the only one that sees the State actually handed to a JIT-built solver): a Jacobian with any
+    // number of blocks other than L -- fewer, more, or a whole multiple of L -- must be rejected by the diagonal-shift
+    // entry point, exactly L blocks must be accepted
+    std::string guard_rt;
+    for (std::size_t n : { std::size_t(L - 1), std::size_t(L), std::size_t(L + 1), std::size_t(2 * L), std::size_t(3 * L) })
+    {
+      if (n == 0)
+        continue;
+      // the solver's own Jacobian pattern (the generated function addresses its diagonal), with n blocks
+      micm::ProcessSet ps_pattern(p.procs, sj.variable_map_);
+      VS Jn = micm::BuildJacobian<VS>(ps_pattern.NonZeroJacobianElements(), n, p.ns);
+      auto diag = Jn.DiagonalIndices(0);
+      std::string res = "accepted";
+      try
+      {
+        jit.solver_.AlphaMinusJacobian(Jn, diag, 1.0);
+      }
+      catch (const std::system_error& e)
+      {
+        res = vh::errString(e);
+      }
+      bool want_reject = n != L;
+      if (want_reject != (res != "accepted"))
+        guard_rt += (guard_rt.empty() ? "" : ",") + std::to_string(n) + ":" + res;
+    }
+    if (guard_rt.empty())
+      guard_rt = "ok";
+    std::replace(guard_rt.begin(), guard_rt.end(), ' ', '_');
     return "jit L=" + std::to_string(L) + " seed=" + std::to_string(seed) + " ns=" + std::to_string(p.ns) + " nrx=" + std::to_string(nrx) +
            " status=" + vh::statusNameStr((int)rc.state_) + " steps=" + std::to_string(rc.stats_.number_of_steps_) +
-           " equal=" + (eq ? "1" : "0") + firstdiff + " guard=" + guard;
+           " equal=" + (eq ? "1" : "0") + firstdiff + " guard=" + guard + " guard_rt=" + guard_rt;
   }
 
   // function level: the generated forcing / Jacobian functions against the vectorised CPU kernels, including a
